@@ -58,7 +58,7 @@ class Harness:
             self._req_over[k] = UnkIter(("a", f"req.{k}"), 0, "any")
         self._req_lazy = self._lazy_fields("cfdppy.request.PutRequest", "req", self._req_over) if "cfdppy.request.PutRequest" in prog.classes else {}
         self.ip.ignore_fields = {"PduConfig.file_flag", "PduConfig.seg_ctrl", "PduConfig.crc_flag"}
-        self.ip.keep_terms = set(keep_terms or ())
+        self.ip.keep_terms = set(keep_terms) if keep_terms is not None else set(self.DEFAULT_KEEP)
         self.ip.exact_fields = {"SourceStateWrapper._num_packets_ready", "DestStateWrapper._num_packets_ready"}
         self.ip.zero_fields = {"_PositiveAckProcedureParams.ack_counter", "_AckedModeParams.nak_activity_counter",
                                "_DestFieldWrapper.current_check_count", "_SourceFileParams.progress"}
@@ -159,6 +159,8 @@ class Harness:
     }
 
     def read_path(self, st: Store, path: str) -> Any:
+        if path.startswith("="):
+            return self.read_term(st, path[1:])
         v: Any = self.self_ref
         for part in path.split("."):
             if not isinstance(v, Ref):
@@ -178,16 +180,31 @@ class Harness:
         return v
 
     EWATCH = {
-        "source": ["states.state", "states.step", "_params.transaction_id", "_params.cond_code_eof", "_params.pdu_conf.trans_mode"],
+        "source": ["states.state", "states.step", "_params.transaction_id", "_params.cond_code_eof", "_params.pdu_conf.trans_mode",
+                   "_params.pdu_conf", "_params.positive_ack_params.ack_counter", "_params.closure_requested", "=_params.fp.progress",
+                   "_params.ack_params.step_before_retransmission", "_params.fp.metadata_only"],
         "dest": ["states.state", "states.step", "_params.transaction_id", "_params.completion_disposition", "_params.pdu_conf.trans_mode",
                  "_params", "_params.acked_params.metadata_missing", "_params.acked_params.lost_seg_tracker.$n",
-                 "_params.acked_params.deferred_lost_segment_detection_active", "_params.finished_params.delivery_code"],
+                 "_params.acked_params.deferred_lost_segment_detection_active", "_params.finished_params.delivery_code",
+                 "=_params.fp.file_name", "_params.pdu_conf", "_params.positive_ack_params.ack_counter",
+                 "_params.acked_params.nak_activity_counter", "_params.current_check_count", "_params.checksum_type",
+                 "_params.fp.metadata_only", "_params.closure_requested", "_params.fp.file_size_eof"],
     }
+    DEFAULT_KEEP = {"FinishedParams.fault_location", "_DestFileParams.file_name", "_SourceFileParams.progress"}
 
     def watch(self, st: Store) -> tuple:
         if self.self_ref is None:
             return ()
         return tuple(self.read_path(st, p) for p in self.WATCH[self.which])
+
+    def read_term(self, st: Store, path: str) -> Any:
+        """raw abstract value at an access path from the handler object"""
+        v: Any = self.self_ref
+        for part in path.split("."):
+            if not isinstance(v, Ref):
+                return None
+            v = st.heap[v.oid].get(part)
+        return v
 
     def cfg_snapshot(self, st: Store) -> tuple:
         out = []
@@ -199,7 +216,15 @@ class Harness:
         for k, v in st.mon.items():
             if k.startswith("o:"):
                 out.append((k[2:], v))
-        return tuple(sorted(out, key=lambda kv: kv[0]))
+        # the put request of this call / of the running transaction
+        pr = st.heap[self.self_ref.oid].get("_put_req") if self.self_ref is not None else None
+        if isinstance(pr, Ref) and pr.oid in st.heap:
+            obj = st.heap[pr.oid]
+            for k in ("trans_mode", "closure_requested", "source_file", "msgs_to_user"):
+                v = obj.get(k)
+                if not isinstance(v, Lazy):
+                    out.append((f"req.{k}", v if (v is None or isinstance(v, (bool, E))) else "<given>"))
+        return tuple(sorted(set(out), key=lambda kv: kv[0]))
 
     def ewatch(self, st: Store) -> tuple:
         """small snapshot attached to every event"""
